@@ -4,7 +4,7 @@
    record, upper = derivable by finitely many substitutions, binding by Python's rules).  ./check C03 judges
    rattr's own results with the Coq checkers lower_ok / upper_ok / calls_ok and compares model and rattr
    exactly (results and mutated IR). *)
-From RattrV Require Import Base Str Context CallSwaps PyBind FuncAn Results ResCheck Closure ResSpecCheck ResProofs.
+From RattrV Require Import Base Str Context CallSwaps PyBind FuncAn Results ResCheck Closure ResSpecCheck ResProofs ResFuel.
 Open Scope string_scope.
 Open Scope list_scope.
 
@@ -54,3 +54,10 @@ Example C03_simple_tree_is_closure :
   /\ KF_C03_1 noexcl E_ok = false /\ KF_C03_2 noexcl E_ok = false
   /\ gets_of (generate noexcl E_ok E_ok S_ok []) "top" = ["t.own"; "u.pa"; "@Tuple.count"; "t.ma"; "u.kb"].
 Proof. exact simple_tree_is_closure. Qed.
+
+(* the call tree of every function of the environment is always built: the BFS never runs out of its fuel
+   2 + total_calls E - recursion, cycles and diamonds included *)
+Theorem C03_call_tree_always_built :
+  forall excluded (E : env) root, In root E -> build_tree excluded E root <> None.
+Proof. exact build_tree_total. Qed.
+Print Assumptions C03_call_tree_always_built.
